@@ -76,7 +76,7 @@ def run(rep, tier):
                 rep.sample({"object": x["kind"], "bytes": x["full"], "outcome_per_prefix_length": x["outcomes"][:12] + ["..."] + x["outcomes"][-3:]}, limit=4)
             if x["e"] == "Flips":
                 nflips += len(x["outcomes"])
-    if nobj < 100 or len(kinds) < 10:
+    if not rep.violations and (nobj < 100 or len(kinds) < 10):
         raise CheckError("stream corpus too small: %d objects of kinds %s" % (nobj, sorted(kinds)))
     rep.add(evaluations=ncuts + nflips, distinct_nontrivial=ncuts, objects=nobj, truncations=ncuts, payload_byte_alterations=nflips,
             object_kinds=sorted(kinds), exhaustive=True, traces_validated_against_impl=nobj,
